@@ -68,8 +68,10 @@ def root_attr_shapes(proj: Project, ev: Evaluator) -> Tuple[List[Tuple[str, AbsS
     """Attribute names that set_component_attrs_for_js_and_css appends to the root-attribute list, in order."""
     m, f = proj.func("dependencies", "set_component_attrs_for_js_and_css")
     shapes: List[Tuple[str, AbsStr]] = []
+    sh = calls(f, "set_html_attributes")
+    lst = norm(next((k.value for c in sh for k in c.keywords if k.arg == "root_attributes"), ast.Name(id="all_root_attributes", ctx=ast.Load())))
     for n in body_walk(f):
-        if isinstance(n, ast.Call) and isinstance(n.func, ast.Attribute) and n.func.attr == "append" and norm(n.func.value) == "all_root_attributes" and n.args:
+        if isinstance(n, ast.Call) and isinstance(n.func, ast.Attribute) and n.func.attr == "append" and norm(n.func.value) == lst and n.args:
             # `if <name>:` guards: inside, <name> is a non-empty string
             env = {}
             for test, pol in flatten_conj(path_conditions(n)):
